@@ -144,6 +144,7 @@ class Engine:
         self.axioms_cache = None
         self.proved_lemmas = []  # z3 formulas usable as axioms
         self.extra_axioms = {}  # axioms of builtin summaries, added on first use
+        self.idioms = {}  # unit -> idiom rewrites applied
         self.dead_calls = []  # call sites whose assumed postcondition is contradictory (vacuity guard)
         self.stats = {"paths": 0, "dead_paths": 0, "feas_checks": 0}
         self.functions_info = {}
@@ -696,7 +697,10 @@ class Interp:
                     self.oblige(f"raises#{k}:not-raised", z3.Not(self.ev_when(when)), {"exc": en, "clause": "normal return although: " + ast.unparse(when)})
             self.run_hints("exit")
             for k, e in enumerate(fs.ensures):
-                self.oblige(f"post#{k}", self.ev_spec(e), {"clause": ast.unparse(e)})
+                info = {"clause": ast.unparse(e)}
+                if k in fs.known:
+                    info["known"] = fs.known[k]
+                self.oblige(f"post#{k}", self.ev_spec(e), info)
             self.check_frame(fs)
             # reachability canary: this exit must not be provable dead
             self.oblige("canary", z3.BoolVal(False), {"exit": "normal"})
@@ -1663,10 +1667,19 @@ class Interp:
             # exception message expressions are not evaluated (documented drop: they are side-effect free strings)
             return ExcObj(f.name, (), origin=getattr(n, "lineno", None))
         ignore = isinstance(f, FuncObj) and f.name in self.m.contracts and self.m.contracts[f.name].options.get("ignore_args")
+        split_star = isinstance(f, FuncObj) and f.name in self.m.contracts and self.m.contracts[f.name].options.get("split_star")
         args = []
         for a in n.args:
             if isinstance(a, ast.Starred):
                 if ignore:
+                    continue
+                v = a.value
+                if split_star and isinstance(v, ast.Call) and isinstance(v.func, ast.Attribute) and v.func.attr == "split" and len(v.args) == 1:
+                    # idiom  f(x, *s.split(sep))  ==>  f(x, s, sep)   (callee declared split_star=True: an assumed contract over
+                    # the unsplit string; recorded as an idiom rewrite)
+                    args.append(self.ev(v.func.value))
+                    args.append(self.ev(v.args[0]))
+                    self.eng.idioms.setdefault(self.fname, set()).add(f"line {getattr(n, 'lineno', '?')}: {f.name}(.., *s.split(sep)) -> {f.name}(.., s, sep)")
                     continue
                 raise OutOfSubset("*args at call")
             args.append(self.ev(a))
